@@ -296,7 +296,7 @@ func TestVerifC16_qndleq(t *testing.T) {
 func TestVerifC16_qndleq_degenerate(t *testing.T) {
 	r := verifmc.Start(t, "C16", "qndleq_degenerate")
 	defer r.Finish()
-	zmax := r.Pick(1<<10, 1<<13)
+	zmax := r.Pick(1<<10, 1<<12)
 	r.Rule(fmt.Sprintf("false statements (g, g^x, h, hx') with hx' in {h^(x+1), h^x*h^2, h^(2x+1), 1 (x != 0)} and (g, g^(x+1), h, h^x), x in {1,2,SEED}, all elements in Qn, falsity decided by c16ref.QnDLEQTrue on the known exponents; "+
 		"full product Z in [0,%d) + {N-1, N, 2^64} x C in {0,1} x SecParam in {0,1,8,16,128,256}; plus the real prover run on every false statement with both candidate witnesses and 4 randomness streams; "+
 		"non-trivial = distinct (modulus, false statement, Z, C, SecParam)", zmax))
@@ -359,6 +359,9 @@ func TestVerifC16_qndleq_degenerate(t *testing.T) {
 		}
 		zs = append(zs, new(big.Int).Sub(s.m.n, big.NewInt(1)), new(big.Int).Set(s.m.n), new(big.Int).Lsh(big.NewInt(1), 64))
 		for _, sec := range secs {
+			if r.Expired() {
+				return
+			}
 			for c := int64(0); c < 2; c++ {
 				for _, z := range zs {
 					id := fmt.Sprintf("%s|Z=%s,C=%d,SecParam=%d", s.id, z.Text(10), c, sec)
@@ -437,7 +440,7 @@ func TestVerifC16_qndleq_degenerate(t *testing.T) {
 	}
 	c16Col.Flush(r)
 	if !r.Thorough() {
-		r.NotExhaustive("quick tier: bases (4,9) only and Z below 2^10 (thorough: both base pairs, a 2048-bit modulus, Z below 2^13)")
+		r.NotExhaustive("quick tier: bases (4,9) only and Z below 2^10 (thorough: both base pairs, a 2048-bit modulus, Z below 2^12)")
 	}
 	r.RequireCounter("false_statement_cases", 100000)
 	r.RequireCounter("prover_on_false_cases", 100)
